@@ -187,19 +187,11 @@ func (s *ReverseSuffixSearcher) Find(haystack []byte) *Match {
 		return nil
 	}
 
-	// For matchStartZero (unanchored .* prefix), match starts at the beginning
-	// of the line containing the LAST suffix — .* (AnyCharNotNL) cannot cross \n.
+	// For matchStartZero (unanchored .* prefix) the leftmost match lies on the line of
+	// the FIRST suffix occurrence and ends at the last occurrence on that line
+	// (.* cannot cross \n): exactly what FindAt computes from position 0.
 	if s.matchStartZero {
-		lastPos := bytes.LastIndex(haystack, s.suffixBytes)
-		if lastPos == -1 {
-			return nil
-		}
-		revEnd := lastPos + s.suffixLen
-		if revEnd > len(haystack) {
-			revEnd = len(haystack)
-		}
-		matchStart := lineStartBefore(haystack, 0, lastPos)
-		return NewMatch(matchStart, revEnd, haystack)
+		return s.FindAt(haystack, 0)
 	}
 
 	// For bounded wildcards (e.g., \d+\.\d+\.35), find the FIRST suffix
